@@ -22,7 +22,9 @@ def large_clone_task(item):
     r = random.Random(seed)
     n = m + kids + 2
     outl = r.random() < 0.5
-    data = bridge.make_data(r, n, samples=r.choice([1, 2]), grid=r.choice([3, 5]), style=r.choice(["flat", "narrow"]), outlier_prob=0.05 if outl else 0.0)
+    n_s = r.choice([1, 2, 3])
+    levels = [0.0, -r.uniform(6, 14), r.uniform(4, 9)] if n_s > 1 and r.random() < 0.7 else None  # sample totals thousands of nats apart
+    data = bridge.make_data(r, n, samples=n_s, grid=r.choice([3, 5]), style=r.choice(["flat", "narrow"]), outlier_prob=0.05 if outl else 0.0, sample_levels=levels)
     own = [frozenset(range(m))] + [frozenset([m + i]) for i in range(kids)] + [frozenset([m + kids])]
     parent = [-1] + [0] * kids + [-1]
     f = Forest(tuple(own), tuple(parent), frozenset([n - 1]) if outl else frozenset())
